@@ -656,3 +656,55 @@ pub fn shape_violation(toks: &[String]) -> Option<&'static str> {
     }
     None
 }
+
+// ------------------------------------------------------------------------------------------
+// Watchdog: a session that loops without ever reaching an await point cannot be timed out from
+// inside the runtime. The harness announces each case; if a case makes no progress for
+// `limit` wall-clock seconds the watchdog thread records an oracle failure for it and ends the
+// process (the check then reports the case as a violation with its replay id).
+// ------------------------------------------------------------------------------------------
+
+pub struct Watchdog {
+    state: Arc<Mutex<(u64, String)>>,
+}
+
+impl Watchdog {
+    pub fn start(out_dir: std::path::PathBuf, limit: std::time::Duration, tag: &'static str) -> Watchdog {
+        let state = Arc::new(Mutex::new((0u64, String::new())));
+        let st = state.clone();
+        std::thread::spawn(move || {
+            let mut last = (0u64, std::time::Instant::now());
+            loop {
+                std::thread::sleep(std::time::Duration::from_millis(500));
+                let (n, req) = st.lock().unwrap().clone();
+                if n != last.0 {
+                    last = (n, std::time::Instant::now());
+                    continue;
+                }
+                if !req.is_empty() && last.1.elapsed() > limit {
+                    use std::io::Write;
+                    let v = hc::serde_json::json!({"case": n, "tag": tag,
+                        "what": format!("case made no progress for {:?}: the session never returned and never reached an await point the harness controls", limit),
+                        "request": req, "impl": "NO-RETURN"});
+                    if let Ok(mut f) = std::fs::OpenOptions::new().append(true).create(true).open(out_dir.join("oracle.jsonl")) {
+                        let _ = writeln!(f, "{}", v);
+                    }
+                    eprintln!("watchdog: {tag}: {req}");
+                    std::process::exit(0);
+                }
+            }
+        });
+        Watchdog { state }
+    }
+    /// Announce the case about to run (its replay id as a request line prefix).
+    pub fn begin(&self, request_id: &str) {
+        let mut s = self.state.lock().unwrap();
+        s.0 += 1;
+        s.1 = request_id.to_string();
+    }
+    pub fn idle(&self) {
+        let mut s = self.state.lock().unwrap();
+        s.0 += 1;
+        s.1.clear();
+    }
+}
